@@ -58,8 +58,11 @@ theorem auto_repeat_zero_size_total :
   decide +kernel
 
 /-- the divisor of the repetition count is at least 1 (`f32_max(per_repetition_used_space, 1.0)`) -/
-theorem auto_repeat_divisor_positive (x : Rat) : 1 ≤ (Num.fmax x 1 : Rat) := by
-  rw [rat_fmax]; exact le_max_right _ _
+theorem auto_repeat_divisor_positive (x : Rat) : 0 < (if Num.fgt x 0 then x else (1 : Rat)) := by
+  by_cases h : Num.fgt x 0 = true
+  · rw [if_pos h]
+    simpa [Num.fgt, Num.flt] using h
+  · rw [if_neg h]; decide
 
 /-- with a positive repetition size the same template is fine: 100 / 20 = 5 repetitions -/
 example : computeExplicitGridSizeInAxis (α := Rat) (.length 100) .auto (.length 0)
